@@ -52,6 +52,12 @@ def _strategy(draw):
     for t in types:
         atomtypes.append({"name": t, "btype": btypes[t], "mass": draw(st.sampled_from([12.0, 36.0, 72.0])),
                           "nb1": nbval(), "nb2": nbval()})
+    if draw(st.integers(0, 3)) == 0:
+        # a type without Lennard-Jones interaction (water hydrogen, dummy site): "0 0", or a size with epsilon 0
+        zero = draw(st.sampled_from(atomtypes))
+        zero["nb2"] = 0.0
+        if comb == 1 or draw(st.booleans()):
+            zero["nb1"] = 0.0
     keyspace = sorted(set(btypes.values()))
     nonbond = []
     for a, b in itertools.combinations_with_replacement(types, 2):
@@ -317,6 +323,8 @@ def check(spec, ctx):
     def conv(c6, c12):
         if spec["comb"] != 1:
             return c6, c12
+        if c6 == 0 and c12 == 0:
+            return 0.0, 0.0
         return (c12 / c6) ** (1.0 / 6.0), c6 ** 2 / (4 * c12)
 
     for a, b in itertools.combinations_with_replacement(types, 2):
